@@ -17,6 +17,14 @@ from ..miniev import Unsupported
 from ..tables import describe_selector, fresh_sel, match_obj, parser_obj, run_parse_selectors, tok
 
 
+def strict_lower(v):
+    """Stand-in for util.lower (lru_cache'd, str only): exact ASCII folding for str (C11-R4 proves the real one is that),
+    TypeError for anything else - a list-valued attribute must never reach it."""
+    if not isinstance(v, str):
+        raise Raised('TypeError')
+    return ''.join(chr(ord(c) + 32) if 'A' <= c <= 'Z' else c for c in v)
+
+
 def _flags(ctx):
     return {k: ctx.consts.const('css_parser', k) for k in ('FLG_PSEUDO', 'FLG_OPEN', 'FLG_FORGIVE', 'FLG_RELATIVE', 'FLG_NOT',
                                                             'FLG_HTML')}
@@ -879,7 +887,8 @@ def lang_table(ctx, rule):
             seen.append(found)
             return True
         me = matcher_obj(is_xml=False, is_html=True, root=html, cached_meta_lang=[], has_html_namespace=False)
-        stubs = {'css_match.CSSMatch.extended_language_filter': filt, 'css_match.CSSMatch.supports_namespaces': lambda: False}
+        stubs = {'css_match.CSSMatch.extended_language_filter': filt, 'css_match.CSSMatch.supports_namespaces': lambda: False,
+                 'util.lower': strict_lower}
         langs = (Obj(_name='SelectorLang', languages=('xx',), __iter__=['xx'], __len__=1),)
         try:
             r = call_function(ctx, fnq, [el, langs], {}, stubs, me)
@@ -895,6 +904,7 @@ def lang_table(ctx, rule):
         ('pragma with other attributes around', [[('name', 'x'), C, ('id', 'm'), P]], {}, 'en-US'),
         ('pragma spelled in upper case', [[('HTTP-EQUIV', 'Content-Language'), ('CONTENT', 'en-US')]], {}, 'en-US'),
         ('second meta is the pragma', [[('charset', 'utf-8')], [C, P]], {}, 'en-US'),
+        ('multi-valued attributes (lists) on the meta elements', [[('class', ['a', 'b']), ('name', 'x')], [('rel', ['r']), P, ('class', ['c']), C]], {}, 'en-US'),
         ('meta with another http-equiv', [[('http-equiv', 'refresh'), C]], {}, None),
         ('content of an earlier meta does not leak into the pragma', [[('name', 'd'), ('content', 'zz')], [P]], {}, None),
         ('no meta', [], {}, None),
@@ -903,15 +913,17 @@ def lang_table(ctx, rule):
         ('lang attribute on the root wins', [[C, P]], {'html_lang': 'it'}, 'it'),
         ('empty lang attribute is a language (unknown), not "missing"', [[P, C]], {'el_lang': ''}, ''),
     ]
-    bad = None
+    bad = bad_raise = None
     for what, metas, kw, exp in cases:
         got = language_of(metas, **kw)
         rule.instance({'case': what, 'language_found': got, 'expected': exp}, key='lang|' + what)
         if got != exp and bad is None:
             bad = (what, metas, kw, got, exp)
+        if got != exp and isinstance(got, str) and got.startswith('raises') and bad_raise is None:
+            bad_raise = (what, metas, kw, got, exp)
     rule.obligation(bad is None)
-    if bad is not None:
-        what, metas, kw, got, exp = bad
+    for item in ([bad] if bad is not None else []) + ([bad_raise] if bad_raise is not None and bad_raise is not bad and bad_raise != bad else []):
+        what, metas, kw, got, exp = item
         rule.violation(f'css_match.CSSMatch.match_lang table: {what}', mod.where(fn),
                        f'match_lang: case "{what}" (meta elements {metas}, lang attributes {kw}) - the element is found to have '
                        f'language {got!r}, expected {exp!r}: the nearest lang attribute wins; otherwise the first <meta> carrying both '
@@ -1065,8 +1077,8 @@ def dir_table(ctx, rule):
 
     def build(kind, dirv, text, pdir):
         root = el_obj('html')
-        par = el_obj('div', parent=root, attrs=({'dir': pdir} if pdir else {}))
-        attrs = {}
+        par = el_obj('div', parent=root, attrs=dict({'class': ['x', 'y']}, **({'dir': pdir} if pdir else {})))
+        attrs = {'class': ['a', 'b'], 'accesskey': ['k']}
         name = kind
         if kind.startswith('input'):
             name, attrs['type'] = 'input', kind.split(':')[1]
@@ -1112,7 +1124,7 @@ def dir_table(ctx, rule):
         text = tuple(text)
         root, el = build(kind, dirv, text, pdir)
         me = matcher_obj(is_xml=False, is_html=True, root=root)
-        stubs = {'unicodedata.bidirectional': lambda c: bidi[c],
+        stubs = {'unicodedata.bidirectional': lambda c: bidi[c], 'util.lower': strict_lower,
                  'css_match.CSSMatch.supports_namespaces': lambda: False,
                  'css_match._DocumentNav.is_navigable_string': lambda n: isinstance(n, str),
                  'css_match._DocumentNav.is_special_string': lambda n: False}
@@ -1363,13 +1375,18 @@ def immutable_table(ctx, rule, classes):
 
 
 # ---- the pattern text on its way from the API to the tokenizer ------------------------------------------------------------------
-def pattern_handover_table(ctx, rule):
+def top_level_ok(trace):
+    pa_, pk_ = trace.get('process_args', ((), {}))
+    return not any(pa_) and not any(pk_.values())
+
+
+def pattern_handover_table(ctx, rule, flags=(0, 1)):
     """Interpret compile() -> _cached_css_compile() -> CSSParser.__init__ -> process_selectors with recording stand-ins: the
     text the tokenizer iterates over is the caller's text, except that NUL becomes U+FFFD."""
     texts = ['PAT', 'a\x00b', ' a\\ ', 'A\tb\n', '']
     pmod = ctx.src.mod('css_parser')
     bad = None
-    for text in texts:
+    for text, fl in itertools.product(texts, flags):
         exp = text.replace('\x00', '�')
         trace = {}
 
@@ -1387,6 +1404,8 @@ def pattern_handover_table(ctx, rule):
             trace['stored'] = me.get('pattern') if me.has('pattern') else None
 
             def process_selectors(*pa, **pk):
+                trace['process_args'] = (tuple(pa), dict(pk))
+
                 def selector_iter(p_):
                     trace['tokenized'] = p_
                     return []
@@ -1398,17 +1417,19 @@ def pattern_handover_table(ctx, rule):
         inner_stubs = {'css_parser.CSSParser': parser_ctor, 'css_match.SoupSieve': lambda *a, **k: Obj(_name='SoupSieve', pattern=a[0] if a else k.get('pattern'))}
         stubs = {'cp._cached_css_compile': cached_stub, 'isinstance': lambda v, c: False}
         try:
-            res = call_function(ctx, '__init__.compile', [text], {}, stubs, None)
+            res = call_function(ctx, '__init__.compile', [text, None, fl], {}, stubs, None)
         except Raised as e:
             trace['raises'] = e.exc_name
             res = None
         except Unsupported as e:
             raise AnalysisError(f'compile() hand-over: outside the evaluable fragment: {e}')
         final = res.get('pattern') if isinstance(res, Obj) and res.has('pattern') else None
+        pa_, pk_ = trace.get('process_args', ((), {}))
+        top_level = not any(pa_) and not any(pk_.values())        # index 0 and no private parser flags for the top-level list
         ok = trace.get('to_cache') == text and trace.get('to_parser') == text and trace.get('stored') == exp \
-            and trace.get('tokenized') == exp and final == text and 'raises' not in trace
-        rule.instance({'pattern': text, 'to_cache': trace.get('to_cache'), 'to_parser': trace.get('to_parser'),
-                       'stored': trace.get('stored'), 'tokenized': trace.get('tokenized'), 'SoupSieve.pattern': final}, key=f'handover|{text!r}')
+            and trace.get('tokenized') == exp and final == text and 'raises' not in trace and top_level
+        rule.instance({'pattern': text, 'flags': fl, 'process_selectors_args': trace.get('process_args'), 'to_cache': trace.get('to_cache'), 'to_parser': trace.get('to_parser'),
+                       'stored': trace.get('stored'), 'tokenized': trace.get('tokenized'), 'SoupSieve.pattern': final}, key=f'handover|{text!r}|{fl}')
         if not ok and bad is None:
             bad = (text, dict(trace), final, exp)
     rule.obligation(bad is None)
@@ -1419,4 +1440,6 @@ def pattern_handover_table(ctx, rule):
                        f'stored as {trace.get("stored")!r}, tokenized as {trace.get("tokenized")!r} and kept on the compiled object as '
                        f'{final!r}{" (raises " + trace["raises"] + ")" if "raises" in trace else ""}; expected the text itself everywhere '
                        f'({exp!r} for the tokenizer: only NUL -> U+FFFD): escape() output such as a trailing escaped space must not be '
-                       f'altered before parsing')
+                       f'altered before parsing' + ('' if top_level_ok(trace) else f'; process_selectors is called with {trace.get("process_args")}: '
+                       f'the public flags (DEBUG = 1) are not the parser-private FLG_* bits - the top-level list must be parsed with '
+                       f'index 0 and flags 0'))
